@@ -274,6 +274,7 @@ class Facts:
                     continue
                 seen.add(key)
                 self.funcs.append(Func(f, unit))
+                self.funcs[-1].facts = self
             for r in d["records"]:
                 self.records.setdefault(r.get("type") or r["qname"], r)
             for e in d["enums"]:
